@@ -49,7 +49,7 @@ func main() {
 		look := func(id uint64) {
 			op := b.Op(id)
 			sd := c.Get(op.Type)
-			if sd == nil || sd.Rejected() || sd.PanicInit {
+			if sd == nil || sd.Rejected() || sd.PanicInit || sd.HoldsPanic {
 				return
 			}
 			w := model.GenValue(c, sd, op.VSeed, model.VOpt{Budget: op.Budget, Foreign: op.Foreign})
